@@ -230,15 +230,19 @@ impl ColumnMetrics {
     pub fn line_start_position(&self, text: &str, base: Pos)
         -> Pos
     {
+        let line_break = self.line_ending.as_str();
+
         let mut start_byte = base.byte;
         while start_byte > 0 {
-            while !text.is_char_boundary(start_byte - 1) {
-                start_byte -= 1;
-            }
-            if self.is_line_break(text, start_byte - 1) {
+            // The line starts where the preceding text ends with a complete
+            // line break (which may be more than one byte long.)
+            if text[..start_byte].ends_with(line_break) {
                 break;
             }
-            start_byte = start_byte.saturating_sub(1);
+            start_byte -= 1;
+            while !text.is_char_boundary(start_byte) {
+                start_byte -= 1;
+            }
         }
 
         
